@@ -308,8 +308,9 @@ def fresh_like(ctx, v, name):
 
 
 class Interp:
-    def __init__(self, ctx, globals_, module=None, loops=None, exc_parents=None, fnname='', module_names=None):
+    def __init__(self, ctx, globals_, module=None, loops=None, exc_parents=None, fnname='', module_names=None, exact=False):
         self.ctx = ctx
+        self.exact = exact  # float literals and int/int division are exact rationals (machine arithmetic as mathematical)
         self.globals = globals_
         self.module = module
         self.loops = loops or {}
@@ -753,6 +754,9 @@ class Interp:
         return m(n, env)
 
     def ex_Constant(self, n, env):
+        if self.exact and isinstance(n.value, float):
+            from fractions import Fraction
+            return Fraction(repr(n.value))
         return n.value
 
     def lookup_global(self, name):
@@ -839,6 +843,9 @@ class Interp:
     def ex_BinOp(self, n, env):
         a = self.expr(n.left, env)
         b = self.expr(n.right, env)
+        if self.exact and isinstance(n.op, ast.Div) and isinstance(a, int) and isinstance(b, int) and not isinstance(a, bool) and b != 0:
+            from fractions import Fraction
+            return Fraction(a, b)
         return ops.binop(self.ctx, BINOPS[type(n.op)], a, b)
 
     def ex_Compare(self, n, env):
